@@ -624,7 +624,8 @@ func (app *App) handleTrustedProxy(ipAddress string) {
 		if ip == nil {
 			log.Warnf("IP address %q could not be parsed", ipAddress)
 		} else {
-			app.config.TrustProxyConfig.ips[ipAddress] = struct{}{}
+			// keyed by the canonical form, which is what the peer address is looked up by
+			app.config.TrustProxyConfig.ips[ip.String()] = struct{}{}
 		}
 	}
 }
